@@ -105,6 +105,10 @@ func duoCaseGen(minSocks int, allowLite bool) *rapid.Generator[duoCase] {
 			}
 		}
 		c.MaxBinding = uint16(rapid.IntRange(3, 9).Draw(t, "maxBinding")) //nolint:gosec
+		if rapid.IntRange(0, 7).Draw(t, "hugeBudget") == 0 {
+			// the ends of the option's range: a budget that is never exhausted within a case
+			c.MaxBinding = rapid.SampledFrom([]uint16{65535, 65534, 32768, 256, 255}).Draw(t, "maxBindingBoundary")
+		}
 		c.ReusePorts = rapid.Bool().Draw(t, "reusePorts")
 		c.StartOrder = rapid.IntRange(0, 1).Draw(t, "startOrder")
 
@@ -645,6 +649,9 @@ func TestVerif_C01_LatencyLoss(t *testing.T) {
 		lossPct := rapid.SampledFrom([]int{0, 20, 50, 80, 100}).Draw(rt, "lossPercent")
 		lossDice := rapid.SliceOfN(rapid.IntRange(0, 99), 64, 64).Draw(rt, "lossDice")
 		lossClass := rapid.SampledFrom([]string{"all", "all", "requests", "responses", "use-candidate", "plain-requests"}).Draw(rt, "lossClass")
+		if c.MaxBinding > 9 {
+			c.MaxBinding = 9 // (this test walks through the whole budget; the huge budgets are left to C01_Converge)
+		}
 		maxSteps := 2 * (int(c.MaxBinding) + 3)
 		nSteps := maxSteps
 		if !rapid.Bool().Draw(rt, "lossOutlastsBudget") {
